@@ -38,7 +38,13 @@ def strategy_(draw, tier):
   mode = draw(st.sampled_from(['dag', 'dag', 'dag', 'boxes', 'chain'] if tier == 'thorough'
                                else ['dag', 'dag', 'dag', 'boxes', 'boxes', 'chain']))
   if mode == 'dag':
-    return draw(dags.dag(max_nodes=14, kinds=['B', 'B', 'B', 'list', 'list', 'tuple', 'dict', 'nt', 'box', 'TV']))
+    recipe = draw(dags.dag(max_nodes=14, kinds=['B', 'B', 'B', 'list', 'list', 'tuple', 'dict', 'nt', 'box', 'TV'],
+                           fns=['things:f2', 'things:h1', 'things:Base', 'things:LeafCls', 'things:Other', 'things:kwf']))
+    for nd in recipe['nodes']:
+      if nd['k'] == 'B' and nd['fn'].get('name') == 'things:kwf' and draw(st.booleans()):
+        # history: a rejected fdl.update_callable (the **kwargs entries do not fit things.ident)
+        nd['edits'] = nd.get('edits', []) + [['try_update_callable', 'things:ident']]
+    return recipe
   if mode == 'boxes':
     # many boxes with distinct configs: provokes id reuse of flatten temporaries
     n = draw(st.integers(5, 40))
@@ -91,7 +97,8 @@ def walk_pairs(cfg, built, limit=30000):
       if not isinstance(recobj, vuni.Rec):
         raise AssertionError(f'built value at {path} is not a Rec: {b!r}')
       for k in C._ordered_keys(c):  # pylint: disable=protected-access
-        yield from rec(c.__arguments__[k], recobj.bound[k], path + (('a', k),))
+        got = recobj.bound[k] if k in recobj.bound else recobj.varkw[k]   # named parameter or **kwargs entry
+        yield from rec(c.__arguments__[k], got, path + (('a', k),))
     elif isinstance(c, boxes.Box):
       if not isinstance(b, boxes.Box) or len(b.items) != len(c.items):
         raise AssertionError(f'built Box mismatch at {path}: {b!r}')
@@ -186,7 +193,7 @@ def check(case):
         for k in C._ordered_keys(c):  # pylint: disable=protected-access
           ch = c.__arguments__[k]
           if isinstance(ch, fdl.Buildable):
-            chb = recobj.bound[k]
+            chb = recobj.bound[k] if k in recobj.bound else recobj.varkw[k]
             chrec = chb.__vrec__ if hasattr(chb, '__vrec__') else chb
             if order.get(id(chrec), 10**9) > my:
               out.add('dependency-built-after-dependent', 'order', '', feature, str(path))
